@@ -5,7 +5,7 @@ d=$(mktemp -d /tmp/vfseed.XXXX)
 mkdir -p $d/repo $d/out
 base=${VERIF_BASE:-/repo}; cp -r $base/lib $d/repo/lib; cp $base/Cargo.toml $base/Cargo.lock $d/repo/ 2>/dev/null
 (cd $d/repo && git init -q . 2>/dev/null; git apply --unsafe-paths -p1 "$patch") || { echo "patch failed"; rm -rf $d; exit 3; }
-VERIF_REPO=$d/repo VERIF_OUT=$d/out /verif/check $unit 2>&1 | grep -E "^(VIOLATION|OK|UNDECIDED|KNOWN)" | head -8
+VERIF_REPO=$d/repo VERIF_OUT=$d/out /verif/check $unit 2>&1 | grep -E "^(VIOLATION|OK|UNDECIDED)" | head -8
 rc=${PIPESTATUS[0]}
 rm -rf $d
 exit $rc
